@@ -329,6 +329,37 @@ def prepare(p):
     return c
 
 
+def work(p):
+    """worker process: read / write / re-read one program with the real code and export every generated
+    routine of both PSyIR trees -> (status, text, impl, impl2, reread_error)"""
+    status, out, psyir = rewrite(p.source)
+    if status != "ok":
+        return status, out, {}, {}, ""
+    impl, impl2, err = {}, {}, ""
+    rts = routines_of(psyir)
+    try:
+        rts2 = routines_of(read(out))
+    except Exception as e:
+        rts2 = None
+        err = f"{type(e).__name__}: {e}"[:300]
+    for r in p.routines:
+        low = r.model_low
+        fresh = [int(x) for x in re.findall(r"\(loop (\d+)", low) if int(x) >= 1000]
+        tags = [int(x) for x in re.findall(r"\(cb (\d+)\)", low)]
+        for target, table in ((impl, rts), (impl2, rts2)):
+            if table is None:
+                continue
+            cx = Ctx(p.names, p.arrays, fresh, tags, p.tagtext)
+            try:
+                ex = export_stmt(table[r.name].children, cx)
+                # an empty schedule (e.g. an empty ELSE body, which the writer drops) is `skip`
+                target[r.name] = (sx(ex).replace("(seqs)", "(skip)"), cx.verbatim_bad,
+                                  sx(canon_neg(ex)).replace("(seqs)", "(skip)"))
+            except minif.Unsupported as e:
+                target[r.name] = (None, str(e), None)
+    return status, out, impl, impl2, err
+
+
 def corr_lines(cases):
     """pass 1: ask the model for the lowered routines (fresh variables / code-block tags in order)"""
     lines = []
@@ -356,8 +387,8 @@ def run(chk):
                                "harness/props/c01.py exporter + c01_gen.py generator", "fparser2, gfortran"]
     chk.lean()
     thorough = chk.tier == "thorough"
-    nprog = 1500 if thorough else 80
-    nrun = 500 if thorough else 24
+    nprog = 1500 if thorough else 90
+    nrun = 1500 if thorough else 90        # every program goes through gfortran
     rng = chk.rng
 
     # corpus first: hand-written programs and minimised past failures
@@ -385,7 +416,25 @@ def run(chk):
         focus = [None, None, "where", "select"][n % 4]
         programs.append(c01_gen.gen_program(rng, names, focus))
 
-    cases = [prepare(p) for p in programs]
+    # pass 1: the model's lowering of every routine (order of fresh loop variables / CodeBlock tags)
+    cases = []
+    for p in programs:
+        c = Case()
+        c.p, c.env = p, sx(c01_gen.env_sx(p))
+        cases.append(c)
+    model1 = common.driver("C01", corr_lines(cases))
+    k = 0
+    for c in cases:
+        for r in c.p.routines:
+            r.model_low = model1[k]
+            k += 1
+    # real code (read, write, re-read, export) in worker processes
+    import multiprocessing
+    read("program warmup\nend program warmup\n")        # import PSyclone before forking
+    with multiprocessing.get_context("fork").Pool(min(8, os.cpu_count() or 1)) as pool:
+        results = pool.map(work, [c.p for c in cases], chunksize=2)
+    for c, res in zip(cases, results):
+        c.status, c.out, c.impl, c.impl2, c.reread_error = res
     stats = {"programs": len(cases), "routines": 0, "lowering_agree": 0, "roundtrip_agree": 0, "unmodelled": 0,
              "gfortran_pairs": 0, "gfortran_pass": 0, "gfortran_skipped": 0, "known_class_failures": 0,
              "not_good(where outside theorem)": 0}
@@ -400,34 +449,10 @@ def run(chk):
                 return
         else:
             alive.append(c)
-    model1 = common.driver("C01", corr_lines(alive))
-    k = 0
     cmp_lines, cmp_refs = [], []
     for c in alive:
-        c.impl, c.impl2, c.verdicts = {}, {}, {}
-        try:
-            rts = routines_of(c.psyir)
-            rts2 = routines_of(read(c.out))
-        except Exception as e:
-            rts2 = None
-            c.reread_error = f"{type(e).__name__}: {e}"[:300]
+        c.verdicts = {}
         for r in c.p.routines:
-            low = model1[k]
-            k += 1
-            fresh = [int(x) for x in re.findall(r"\(loop (\d+)", low) if int(x) >= 1000]
-            tags = [int(x) for x in re.findall(r"\(cb (\d+)\)", low)]
-            r.model_low = low
-            for which, table in (("impl", rts), ("impl2", rts2)):
-                if table is None:
-                    continue
-                cx = Ctx(c.p.names, c.p.arrays, fresh, tags, c.p.tagtext)
-                try:
-                    ex = export_stmt(table[r.name].children, cx)
-                    # an empty schedule (e.g. an empty ELSE body, which the writer drops) is `skip`
-                    getattr(c, which)[r.name] = (sx(ex).replace("(seqs)", "(skip)"), cx.verbatim_bad,
-                                                 sx(canon_neg(ex)).replace("(seqs)", "(skip)"))
-                except minif.Unsupported as e:
-                    getattr(c, which)[r.name] = (None, str(e), None)
             if c.impl[r.name][0] is not None:
                 cmp_lines.append(sx(["cmp", c.env, r.ast, c.impl[r.name][0]]))
                 cmp_refs.append((c, r))
@@ -473,7 +498,7 @@ def run(chk):
                 c.agree = False
                 chk.correspondence_broken("FortranWriter output re-read differs from the PSyIR it was written from",
                                           {"source": c.p.source, "routine": r.name},
-                                          ex[:1500], str(c.impl2.get(r.name))[:1500] + getattr(c, "reread_error", ""))
+                                          ex[:1500], str(c.impl2.get(r.name))[:1500] + c.reread_error)
         if not c.agree:
             suspicious.append(c)
 
